@@ -208,12 +208,68 @@ func drawMessage(rt *rapid.T, liveId uint16, sessionCodec enc.Encoder) (*mdns.Ms
 	m.Id = uint16(rapid.IntRange(0, 65535).Draw(rt, "id"))
 	m.Question = []mdns.Question{{Name: name, Qtype: qtype, Qclass: qclass}}
 	desc["name"] = name
+	desc["additional_section"] = drawExtra(rt, m)
 	// only wire-representable input
 	w, _, err := wire(m)
 	if err != nil {
 		return nil, nil
 	}
 	return w, desc
+}
+
+// fakeWriter is the dns.ResponseWriter of a server that has no TSIG secrets configured (socketace never configures any):
+// miekg/dns reports TsigStatus() == nil for every request then, also for one that carries a TSIG record.
+type fakeWriter struct {
+	remote net.Addr
+	msg    *mdns.Msg
+}
+
+func (w *fakeWriter) LocalAddr() net.Addr  { return &net.UDPAddr{IP: net.IPv4(127, 0, 0, 1), Port: 53} }
+func (w *fakeWriter) RemoteAddr() net.Addr { return w.remote }
+func (w *fakeWriter) WriteMsg(m *mdns.Msg) error {
+	if m != nil {
+		if _, err := m.Pack(); err != nil {
+			return err
+		}
+	}
+	w.msg = m
+	return nil
+}
+func (w *fakeWriter) Write(b []byte) (int, error) { return len(b), nil }
+func (w *fakeWriter) Close() error                { return nil }
+func (w *fakeWriter) TsigStatus() error           { return nil }
+func (w *fakeWriter) TsigTimersOnly(bool)         {}
+func (w *fakeWriter) Hijack()                     {}
+
+// drawExtra: what a query may carry besides its question - nothing (mostly), an EDNS0 record, a TSIG record (as the last
+// record, where miekg/dns recognises it, or followed by another record), or an unrelated address record.
+func drawExtra(rt *rapid.T, m *mdns.Msg) string {
+	tsig := func() mdns.RR {
+		return &mdns.TSIG{Hdr: mdns.RR_Header{Name: "key.example.", Rrtype: mdns.TypeTSIG, Class: mdns.ClassANY, Ttl: 0},
+			Algorithm: mdns.HmacMD5, TimeSigned: 1600000000, Fudge: 300, MACSize: 16, MAC: "000102030405060708090a0b0c0d0e0f", OrigId: m.Id}
+	}
+	arec := func() mdns.RR {
+		return &mdns.A{Hdr: mdns.RR_Header{Name: "x.example.", Rrtype: mdns.TypeA, Class: mdns.ClassINET, Ttl: 1}, A: net.IPv4(10, 0, 0, 1)}
+	}
+	switch rapid.IntRange(0, 9).Draw(rt, "extra") {
+	case 0, 1:
+		m.SetEdns0(uint16(rapid.IntRange(0, 65535).Draw(rt, "udpSize")), rapid.Bool().Draw(rt, "do"))
+		return "edns0"
+	case 2, 3:
+		m.Extra = append(m.Extra, tsig())
+		return "tsig"
+	case 4:
+		m.SetEdns0(4096, false)
+		m.Extra = append(m.Extra, tsig())
+		return "edns0+tsig"
+	case 5:
+		m.Extra = append(m.Extra, tsig(), arec())
+		return "tsig-not-last"
+	case 6:
+		m.Extra = append(m.Extra, arec())
+		return "address-record"
+	}
+	return "none"
 }
 
 type workMeter struct {
@@ -248,7 +304,12 @@ func callHandler(srv *ServerDnsListener, m *mdns.Msg, from net.Addr) (resp *mdns
 			}
 			ch <- out
 		}()
-		out.r, out.e = srv.onMessage(m, from)
+		// through the function the real UDP/TCP server calls for every datagram (it wraps the message handler: TSIG
+		// echo, writing the answer), with a writer that behaves like miekg's for a server without TSIG secrets
+		comm := &NetConnectionServerCommunicator{onMessage: srv.onMessage}
+		fw := &fakeWriter{remote: from}
+		comm.handleRequest(fw, m)
+		out.r = fw.msg
 	}()
 	select {
 	case o := <-ch:
@@ -298,7 +359,7 @@ func TestServerWithstandsStrayMessages(t *testing.T) {
 			meter := startMeter()
 			_, _, pmsg, hung := callHandler(srv, m, addrForeign)
 			dur, alloc := meter.stop()
-			labels := []string{"server", "class:" + fmt.Sprint(d["class"])}
+			labels := []string{"server", "class:" + fmt.Sprint(d["class"]), "additional:" + fmt.Sprint(d["additional_section"])}
 			vlib.Rec.Case(fmt.Sprintf("srv|%v", d), true, labels, func() interface{} { return d })
 			if pmsg != "" {
 				fail("server-panic class="+fmt.Sprint(d["class"]), "the server's message handler panicked (miekg/dns does not recover: the process would crash): "+pmsg, d)
